@@ -275,3 +275,18 @@ SPECS["C01"] = dict(
         dict(id="sessions", run="^TestC01Sessions$", quick=dict(shards=6, checks=400, timeout=400, shrinktime=30), thorough=dict(shards=4, checks=15000, timeout=3000, shrinktime=300)),
     ]),
 )
+
+SPECS["C02"] = dict(
+    level="exploration",
+    technique="property-based testing of real engine sessions (rapid): generated write-operation batches, external async producers and peer reading schedules against an effect-order stream oracle and OutboundBuffered bounds",
+    rule="a case is one engine configuration (as C01 plus small socket send buffers and WriteBufferCap values) with 1..3 connections; per connection an optional OnOpen reply, 0..4 batches (triggered by peer commands) over "
+         "Write/Writev(0..3000 slices incl. empty)/ReadFrom(scripted reader)+Flush/AsyncWrite/AsyncWritev/external producer goroutines, payloads 0..3 MiB around the ring and limit sizes, and a peer schedule of commands, reads (1 byte..1 MiB), pauses and "
+         "'do not read until OutboundBuffered >= x'; oracle: what the peer receives equals the concatenation of accepted records in the order they took effect on the loop; inside callbacks 0 <= OutboundBuffered <= accepted - received by the peer and 0 once everything arrived; "
+         "everything accepted arrives while the peer reads (stall rule); non-trivial = a connection on which OutboundBuffered > 0 was observed inside a callback (real back-pressure); distinct = distinct (configuration, connection script)",
+    assumptions=ENGINE_ASSUME + ["async writes are always issued with a callback (the callback position defines when the write took effect)"],
+    overlay=["verifx/c02"] + FX_OVERLAY,
+    max_parallel=12,
+    jobs=engine_jobs("c02", "./verifx/c02", [
+        dict(id="sessions", run="^TestC02Sessions$", quick=dict(shards=6, checks=60, timeout=600, shrinktime=30), thorough=dict(shards=4, checks=2500, timeout=3400, shrinktime=300)),
+    ]),
+)
